@@ -140,6 +140,13 @@ func RenderGo(v reflect.Value) string {
 	}
 	switch v.Kind() {
 	case reflect.Ptr, reflect.Interface:
+		if v.Kind() == reflect.Ptr && v.Type().Elem().Kind() == reflect.Ptr {
+			// pointer to pointer: nil = omitted, pointer to nil = explicit null
+			if v.IsNil() {
+				return "unset"
+			}
+			return "set(" + RenderGo(v.Elem()) + ")"
+		}
 		if v.IsNil() {
 			return "null"
 		}
@@ -198,6 +205,17 @@ func RenderExpected(sv *SV, t reflect.Type, dyn reflect.Value) string {
 	isNull := sv == nil || sv.K == "null"
 	switch t.Kind() {
 	case reflect.Ptr:
+		if t.Elem().Kind() == reflect.Ptr {
+			// pointer to pointer: shows omitted / explicit null / value like Omittable
+			if sv == nil {
+				return "unset"
+			}
+			d := reflect.Value{}
+			if dyn.IsValid() && dyn.Kind() == reflect.Ptr && !dyn.IsNil() {
+				d = dyn.Elem()
+			}
+			return "set(" + RenderExpected(sv, t.Elem(), d) + ")"
+		}
 		if isNull {
 			return "null"
 		}
